@@ -273,6 +273,14 @@ M("C17", "quiet_sticks_to_application", "config/default_application_config.py",
   '        if args.has_option_token("--quiet") or args.has_option_token("-q"):\n            io.set_quiet(True)',
   '        if args.has_option_token("--quiet") or args.has_option_token("-q") or getattr(self, "_was_quiet", False):\n            self._was_quiet = True\n            io.set_quiet(True)')
 
+# ---- reverts of later fixes -------------------------------------------------------------------
+M("C06", "format_shares_names_list", "api/args/format/args_format.py",
+  "        self._command_names = list(builder.get_command_names(False))", "        self._command_names = builder.get_command_names(False)")
+M("C09", "section_ignores_quiet", "api/io/output.py",
+  "        section.set_quiet(self._quiet)\n        section.set_verbosity(self._verbosity)\n", "")
+M("C16", "section_ignores_verbosity_equivalent", "api/io/output.py",
+  "        section.set_verbosity(self._verbosity)\n", "", expect="silent")  # the bar resolves its format from the section's own verbosity
+
 
 def run_one(m, runs):
     prop, name, path, old, new, expect = m
